@@ -51,6 +51,12 @@ ProviderPrivate::ProviderPrivate(QObject *parent, AbstractServer *server, Hostna
     ptrProposed.setType(PTR);
     srvProposed.setType(SRV);
     txtProposed.setType(TXT);
+
+    // The SRV and TXT records are unique to this provider - the cache-flush
+    // bit makes a changed record replace the previous one in the caches of
+    // those listening instead of being stored alongside it
+    srvProposed.setFlushCache(true);
+    txtProposed.setFlushCache(true);
 }
 
 ProviderPrivate::~ProviderPrivate()
